@@ -252,6 +252,19 @@ theorem valid_fold (v : Bytes) : Valid (fold v) ↔ Valid v := by
 
 /-! ### parse and match -/
 
+theorem Valid.not_multiDot {v : Bytes} (h : Valid v) : multiDot v = false := by
+  match v with
+  | [] => rfl
+  | [_] => rfl
+  | a :: b :: r =>
+    by_cases ha : a = DOT
+    · by_cases hb : b = DOT
+      · subst ha; subst hb
+        have := h.2
+        simp [root, startsWithDot] at this
+      · simp [multiDot, hb]
+    · simp [multiDot, ha]
+
 /-- the state of a correctly built domain ACL: disjoint, increasing, well-formed stored values whose intervals cover exactly
 what the configured values cover -/
 def Holds (vals : List Bytes) (t : Tree Bytes) : Prop :=
@@ -280,7 +293,8 @@ theorem parseFrom_spec : ∀ (toks : List Bytes) (t : Tree Bytes) (ev : List Eve
         · exact Or.inr hk)
     obtain ⟨t2, ev2, hp, hh⟩ := ih t1 ev1 (seen ++ [tok]) (fun x hx => hv x (by simp [hx])) ⟨hs1, hc1⟩
     refine ⟨t2, ev2, ?_, by simpa using hh⟩
-    rw [parseFrom, hm]
+    rw [parseFrom, hvt.not_multiDot, Bool.and_false]
+    simp only [Bool.false_eq_true, if_false, hm]
     exact hp
 
 /-- `ACLDomainData::parse` on well-formed values always succeeds and establishes the invariant. -/
